@@ -6,7 +6,7 @@ using namespace c19;
 static rc::Gen<Case> genCase() {
     return rc::gen::exec([]() {
         Case c;
-        c.type = *vprc::uni<int>(0, 2);
+        c.type = *vprc::uni<int>(0, 3);
         c.cap = *rc::gen::weightedOneOf<size_t>({{3, vprc::uni<size_t>(1, 8)}, {2, vprc::uni<size_t>(9, 64)}});
         size_t n = *rc::gen::inRange<size_t>(0, 1001);
         int type = c.type;
@@ -44,7 +44,7 @@ static std::string oracle(const Case &c) {
     return r;
 }
 static void run() {
-    vp::stats().rule = "rc: random histories (<=1000 ops) over put/get/clear/override for capacities 1..64 and element types uint8_t, uint32_t, int16_t";
+    vp::stats().rule = "rc: random histories (<=1000 ops) over put/get/clear/override for capacities 1..64 and element types uint8_t, uint32_t, int16_t, double";
     vprc::check<Case>("ring buffer follows the queue model", genCase(), oracle, [](const Case &c) { return serialise(c); });
 }
 static bool replay(const std::string &text) {
